@@ -166,6 +166,18 @@ def float_part(L, rng, n):
             t2 = tm(A.copy())
             t2.setQuat(a.getQuat())
             L.log("setQuat(getQuat)", reg, err(t2.gTM(), A, s2), TOL, case)
+            # another transform / a one-element array of a transform: the same pose, and a transform of its own -
+            # re-orienting the new object (setQuat, the in-place writer C04 names) leaves the source's meaning alone
+            t3, t4 = tm(a), tm(_arr1(a))
+            L.log("ctor:tmcopy", reg, err(t3.gTM(), A, s2), TOL, case)
+            L.log("ctor:arr1tm", reg, err(t4.gTM(), A, s2), TOL, case)
+            t3.setQuat(b.getQuat())
+            t4.setQuat(c3.getQuat())
+            AB = A.copy()
+            AB[:3, :3] = B[:3, :3]
+            L.log("ctor:tmcopy re-oriented", reg, err(t3.gTM(), AB, s2), TOL, case)
+            L.log("ctor:tmcopy source keeps its pose", reg, max(err(a.gTM(), A, s2), err((a @ b).gTM(), A @ B, s2),
+                                                               err(fsr.localToGlobal(a, b).gTM(), A @ B, s2)), TOL, case, near_half(A @ B))
             # constructor forms from descriptions derived by RefEval
             rv = rf.rot_log(A[:3, :3])
             L.log("ctor:list6", reg, err(tm(list(A[:3, 3]) + list(rv)).gTM(), A, s2), TOL, case)
@@ -175,7 +187,8 @@ def float_part(L, rng, n):
             if ang is not None:
                 L.log("ctor:rpy6", reg, err(tm(list(A[:3, 3]) + list(ang), rpy=True).gTM(), A, s2), TOL, case)
         for law in ("matmul=matrix product", "inv=group inverse", "assoc", "l2g=ref*rel", "g2l=inv(ref)*x",
-                    "g2l(l2g)=id", "ctor:list6", "ctor:list7", "ctor:pair", "ctor:rpy6", "setQuat(getQuat)"):
+                    "g2l(l2g)=id", "ctor:list6", "ctor:list7", "ctor:pair", "ctor:rpy6", "setQuat(getQuat)", "ctor:tmcopy",
+                    "ctor:arr1tm", "ctor:tmcopy re-oriented", "ctor:tmcopy source keeps its pose"):
             L.require(law, reg, n // 2)
 
 
